@@ -12,7 +12,7 @@ func mix(over map[string]int) map[string]int {
 		"updClassFee": 1, "addBridgeChain": 1, "removeBridgeChain": 1, "burnRegen": 1, "unimplemented": 1, "bankSend": 3,
 		"basketCreate": 3, "put": 8, "take": 8, "updBasketFee": 1, "updCurator": 1, "updDateCriteria": 1,
 		"sell": 8, "updSell": 5, "cancelSell": 3, "buy": 9, "addDenom": 1, "removeDenom": 1, "setFeeParams": 1, "sendFromPool": 1,
-		"block": 8, "restart": 1, "faucet": 1,
+		"block": 8, "restart": 1, "faucet": 1, "speculate": 4,
 	}
 	for k, v := range over {
 		base[k] = v
